@@ -896,6 +896,19 @@ fn gen_wrapped(r: &mut Rng, tier: Tier, out: &mut Out) {
 		b.extend([b'I', 0, 15]);
 		hexop(out, "anno", &b);
 	}
+	// every opcode (and every `wide` sub-opcode) once with 0..=4 operand bytes before a `return`: both decoders of
+	// read_code see all 256 arms
+	for op in 0..=255u8 {
+		for k in 0..=4usize {
+			let mut c = vec![op]; c.extend_from_slice(&[0, 2, 0, 0][..k]); c.push(0xb1);
+			hexop(out, "code", &code_body(&c));
+		}
+		for k in [2usize, 4] {
+			let mut c = vec![0xc4, op]; c.extend_from_slice(&[0, 1, 0, 1][..k]); c.push(0xb1);
+			hexop(out, "code", &code_body(&c));
+		}
+		out.stats.hit("code:opcode-sweep");
+	}
 	if tier == Tier::Thorough {
 		// maximal code arrays: branch offsets that leave 0..65535 on either side (must be errors, not wrap-arounds)
 		for (first, off) in [(0xa7u8, -2i16), (0xa7, -1), (0x99, -32768), (0xa7, 0)] {
